@@ -69,7 +69,10 @@ CHECKS = {
              "C02_children (detach all former children in order, attach the new ones in order), C02_children_treeerror / "
              "_not_iterable / _looperror (refusals), C02_constructors (= creation of a detached node followed by the "
              "assignments); C02_quiet_oracle_is_fault_free lifts them to every fault oracle that does not fire "
-             "during the call. Tie: every forest <= 3 nodes (all) and 4 nodes (sampled) x every call (node, None, non-node "
+             "during the call; the frame clause as trees - C02_move_frame_trees, C02_move_keeps_subtree: after a parent "
+             "assignment the unfolding (tree_of) below every node showing neither the old nor the new parent is the same "
+             "tree, and the moved node takes its whole subtree along. "
+             "Tie: every forest <= 3 nodes (all) and 4 nodes (sampled) x every call (node, None, non-node "
              "incl. falsy non-node arguments) x 5 classes + adversarial classes + random histories; the pointwise spec "
              "is also evaluated on the observed states.",
         design="6/C02, 0", note="fault-free calls; calls with raising hooks are C03/C16's subject.",
